@@ -215,7 +215,15 @@ func (run *Run) adversity(gi, s int) {
 	}
 	env := run.Env
 	names := env.GroupNodeNames(gi)
-	switch r.Intn(4) {
+	switch r.Intn(5) {
+	case 4:
+		// writes to the varied group's nodes fail, reads succeed
+		fp := &sim.FaultPlan{ByNodeUpdate: map[string]sim.FaultKind{}}
+		for _, n := range names {
+			fp.ByNodeUpdate[n] = pick(r, sim.FServerErr, sim.FConflict)
+		}
+		run.nextFaults = fp
+		run.tracef("  adversity: every node update in group %d fails", gi)
 	case 0:
 		fp := &sim.FaultPlan{ByNode: map[string]sim.FaultKind{}}
 		for _, n := range names {
